@@ -368,6 +368,34 @@ Section C10.
         destruct (body_spec (pi_spec sup v (S outer)) slots (pb_body b) h) as [[e1 h1] [[]|e]]; exact H1.
       - pose proof (IH v (S outer) h m H) as H1. destruct (pi_spec old v (S outer) h) as [[e1 h1] [[]|e]]; exact H1.
     Qed.
+
+    (* ---- the heap a run that returns leaves: the assignments of the hooks that ran, applied in order *)
+    Fixpoint apply_list (S : list (name * value)) (h : heap) : heap :=
+      match S with [] => h | (n, v) :: rest => apply_list rest (set_cell h r n v) end.
+    Lemma apply_list_app : forall a b h, apply_list (a ++ b) h = apply_list b (apply_list a h).
+    Proof. induction a as [|[n v] a IH]; intros; simpl; [reflexivity|apply IH]. Qed.
+    Definition sets_of (x : heap -> pres) (S : list (name * value)) : Prop :=
+      forall h ev h2, x h = (ev, h2, Ok tt) -> h2 = apply_list S h.
+    Lemma body_spec_sets : forall sup S slots, sets_of sup S ->
+      forall body, sets_of (body_spec sup slots body)
+                           (flat_map (fun s => match s with PSet n v => [(n, v)] | PSuper => S end) body).
+    Proof.
+      intros sup S slots Hs. induction body as [|[n v|] body IH]; intros h ev h2 H; cbn [body_spec flat_map] in *.
+      - now inversion H.
+      - unfold setf in H. destruct (has_dict P C || mem n (field_names C)); [|discriminate]. simpl. eapply IH. eassumption.
+      - destruct slots; [discriminate|]. destruct (sup h) as [[e1 h1] [[]|e]] eqn:E; [|discriminate].
+        destruct (body_spec sup false body h1) as [[e2 h2'] o2] eqn:E2. inversion H. subst.
+        rewrite apply_list_app. rewrite <- (Hs _ _ _ E). eapply IH. eassumption.
+    Qed.
+    Lemma getattr_apply_list : forall S h n o, nth_error h r = Some o ->
+      getattr (apply_list S h) r n = match last_set S n with Some v => Some v | None => getattr h r n end.
+    Proof.
+      induction S as [|[k v] S IH]; intros h n o Ho; simpl; [reflexivity|].
+      assert (Ho' : nth_error (set_cell h r k v) r = Some (mkObj (o_kind o) (o_items o) (dict_set (o_attrs o) k v))).
+      { unfold set_cell. rewrite heap_upd_nth, Ho. reflexivity. }
+      rewrite (IH _ n _ Ho'). destruct (last_set S n); [reflexivity|].
+      unfold getattr. rewrite Ho', Ho. simpl. rewrite lookup_dict_set. destruct (Nat.eqb k n); reflexivity.
+    Qed.
   End Mirror.
 
   Definition user_raises (f : pifun) : option exn :=
@@ -401,6 +429,53 @@ Section C10.
     induction f as [| |c' b' slots sup _|old IH]; intros Hw Hn H; simpl in *; try discriminate.
     destruct old as [| |c b s sp|o2]; simpl in *; try discriminate; try reflexivity.
     apply IH; [assumption|reflexivity|assumption].
+  Qed.
+
+  (* the attribute of a hierarchy without any __post_init__ has no hooks *)
+  Lemma resolve_none_sets : forall C, resolve_pi P C = PFNone -> spec_hook_sets C = [].
+  Proof.
+    induction C as [|L C IH]; [reflexivity|]. simpl. destruct (ts_installed P L); [discriminate|].
+    destruct (l_pi L); [discriminate|]. exact IH.
+  Qed.
+  (* whatever class C0 the object belongs to: a run of the attribute of C that returns has applied Spec.spec_hook_sets C *)
+  Lemma resolve_sets : forall C0 r C v outer, sets_of r (pi_spec C0 r (resolve_pi P C) v outer) (spec_hook_sets C).
+  Proof.
+    intros C0 r. induction C as [|L C IH]; intros v outer h ev h2 H; [discriminate|].
+    cbn [resolve_pi spec_hook_sets] in *.
+    assert (Hb : forall v outer,
+      sets_of r (pi_spec C0 r (match l_pi L with
+                                  | Some b => PFUser (l_id L) b (decorated L && eff_slots P L) (resolve_pi P C)
+                                  | None => resolve_pi P C end) v outer)
+              (match l_pi L with
+               | None => spec_hook_sets C
+               | Some b => flat_map (fun s => match s with PSet n v => [(n, v)] | PSuper => spec_hook_sets C end) (pb_body b)
+               end)).
+    { intros v' outer'. destruct (l_pi L) as [b|]; [|apply IH]. intros h' ev' h2' H'. cbn [pi_spec] in H'.
+      destruct (body_spec C0 r (pi_spec C0 r (resolve_pi P C) v' (S outer')) (decorated L && eff_slots P L) (pb_body b) h')
+        as [[e1 h1] [[]|e]] eqn:E; [|discriminate].
+      destruct (pb_raise b); [discriminate|]. inversion H'. subst.
+      eapply (body_spec_sets C0 r _ _ _ (IH v' (S outer'))). eassumption. }
+    destruct (ts_installed P L); [|exact (Hb v outer h ev h2 H)].
+    cbn [pi_spec] in H.
+    remember (match l_pi L with
+              | Some b => PFUser (l_id L) b (decorated L && eff_slots P L) (resolve_pi P C)
+              | None => resolve_pi P C end) as below eqn:Eb.
+    assert (Hgen : forall f, f = below -> f <> PFNone -> forall e1 h1, pi_spec C0 r f v (S outer) h = (e1, h1, Ok tt) ->
+                   h1 = apply_list r (match l_pi L with
+                                      | None => spec_hook_sets C
+                                      | Some b => flat_map (fun s => match s with PSet n v => [(n, v)] | PSuper => spec_hook_sets C end) (pb_body b)
+                                      end) h).
+    { intros f Hf _ e1 h1 E. subst f. exact (Hb v (S outer) h e1 h1 E). }
+    destruct below as [| |c b slots p|p].
+    - (* nothing below: the no-op default *)
+      cbn [pi_spec] in H. destruct (l_pi L); [discriminate|]. rewrite (resolve_none_sets _ (eq_sym Eb)).
+      destruct (snd (checks_prefix (caller_visible v outer) h r (dc_fields C0))); inversion H; reflexivity.
+    - destruct (pi_spec C0 r PFNoop v (S outer) h) as [[e1 h1] [[]|e]] eqn:E; [|discriminate].
+      inversion H. subst h2. eapply (Hgen PFNoop eq_refl); [discriminate|eassumption].
+    - destruct (pi_spec C0 r (PFUser c b slots p) v (S outer) h) as [[e1 h1] [[]|e]] eqn:E; [|discriminate].
+      inversion H. subst h2. eapply (Hgen _ eq_refl); [discriminate|eassumption].
+    - destruct (pi_spec C0 r (PFNew p) v (S outer) h) as [[e1 h1] [[]|e]] eqn:E; [|discriminate].
+      inversion H. subst h2. eapply (Hgen _ eq_refl); [discriminate|eassumption].
   Qed.
 
   (* ---- every construction path is: compute keyword arguments, build the candidate, run __post_init__ *)
